@@ -100,6 +100,8 @@ func specOutstanding(a *Association, tsn uint32) bool {
 //@ func Association.processSelectiveAck
 //@   requires#decoded-chunk selectiveAckChunk != nil
 //@   at call rtoManager.setNewRTT assert#karn-only-first-transmissions{C19} chunkPayload.nSent == 1
+//@   loop 2 atend assert#every-newly-acknowledged-chunk-is-credited-to-its-stream{C15} ok && chunkPayload != nil && !iterStart(chunkPayload.acked) ==>
+//@      bytesAckedPerStream[chunkPayload.streamIdentifier] == iterStart(bytesAckedPerStream[chunkPayload.streamIdentifier])+len(iterStart(chunkPayload.userData))
 //@   loop 1 atend assert#both-ends-of-every-gap-block-are-outstanding{C03} gap.start >= 1 && gap.start <= gap.end &&
 //@      specOutstanding(a, selectiveAckChunk.cumulativeTSNAck+uint32(gap.start)) && specOutstanding(a, selectiveAckChunk.cumulativeTSNAck+uint32(gap.end))
 
@@ -230,7 +232,7 @@ func specOutstanding(a *Association, tsn uint32) bool {
 
 //@ func Association.sendResetRequest
 //@   at call pendingQueue.push assert#reset-marker-queued-behind-the-data{C14} a.state == established && arg1 != nil && arg1.userData == nil &&
-//@      arg1.streamIdentifier == streamIdentifier
+//@      arg1.streamIdentifier == streamIdentifier && !arg1.unordered && arg1.beginningFragment && arg1.endingFragment
 //@   ensures#refused-outside-established{C14,C18} old(a.state) != established ==> result != nil && a.pendingQueue.nChunks == old(a.pendingQueue.nChunks)
 
 //@ func Association.gatherOutboundDataAndReconfigPackets
